@@ -257,6 +257,60 @@ func VerifH10cImportFile() {
 	verifrt.Assert(err3 != nil, "missing-import-is-error")
 }
 
+// VerifH10cImportLayouts: relative imports resolve against the directory of the importing file, so
+// the same import text in two directories names two files; an imported file's directives land in
+// the block that imports it, in order, attributed to their own file. Import cycles between files
+// (a file importing itself, two files importing each other) must end in an error, not in a loop.
+func VerifH10cImportLayouts() {
+	verifrt.Terminates()
+	verifrt.Budget(600000)
+	root := verifrt.FSRoot()
+	switch verifrt.Choose("layout", 3) {
+	case 0:
+		verifrt.FSPut(root+"/common.conf", []byte("dir2 top\n"))
+		verifrt.FSPut(root+"/sub/common.conf", []byte("dir1 inner\n"))
+		verifrt.FSPut(root+"/sub/a.conf", []byte("import common.conf\ndir3 z\n"))
+		first, second := "import sub/a.conf", "import common.conf"
+		swapped := verifrt.Bool("swapped")
+		if swapped {
+			first, second = second, first
+		}
+		text := "a {\n" + first + "\n}\nb {\n" + second + "\n}\n"
+		if verifrt.Bool("one-block") {
+			text = "a {\n" + first + "\n" + second + "\n}\n"
+		}
+		blocks, err := Parse(root+"/Casketfile", strings.NewReader(text), nil)
+		verifrt.Assert(err == nil, "imports-parse")
+		if err != nil {
+			return
+		}
+		var d1, d2, d3 []Token
+		for _, b := range blocks {
+			d1 = append(d1, b.Tokens["dir1"]...)
+			d2 = append(d2, b.Tokens["dir2"]...)
+			d3 = append(d3, b.Tokens["dir3"]...)
+		}
+		verifrt.Assert(len(d1) == 2 && d1[1].Text == "inner" && strings.HasSuffix(d1[1].File, "/sub/common.conf"), "relative-import-resolved-next-to-the-importing-file")
+		verifrt.Assert(len(d2) == 2 && d2[1].Text == "top" && strings.HasSuffix(d2[1].File, "/common.conf") && !strings.HasSuffix(d2[1].File, "/sub/common.conf"), "same-import-text-in-another-directory-names-another-file")
+		verifrt.Assert(len(d3) == 2 && d3[1].Text == "z" && strings.HasSuffix(d3[1].File, "/sub/a.conf"), "imported-directive-attributed-to-its-file")
+		if len(blocks) == 2 {
+			inA := len(blocks[0].Tokens["dir1"]) > 0
+			verifrt.Assert(inA != swapped && (len(blocks[1].Tokens["dir2"]) > 0) != swapped, "imported-directives-land-in-the-importing-block")
+		}
+	case 1:
+		verifrt.Tag("file-import-cycle")
+		verifrt.FSPut(root+"/inc.conf", []byte("dir1 x\nimport inc.conf\n"))
+		_, err := Parse(root+"/Casketfile", strings.NewReader("a {\nimport inc.conf\n}\n"), nil)
+		verifrt.Assert(err != nil, "import-cycle-is-an-error")
+	default:
+		verifrt.Tag("file-import-cycle")
+		verifrt.FSPut(root+"/a.conf", []byte("dir1 x\nimport b.conf\n"))
+		verifrt.FSPut(root+"/b.conf", []byte("import a.conf\n"))
+		_, err := Parse(root+"/Casketfile", strings.NewReader("a {\nimport a.conf\n}\n"), nil)
+		verifrt.Assert(err != nil, "import-cycle-is-an-error")
+	}
+}
+
 // VerifH10cQuotedLayout: line breaks, blanks and backslashes inside a quoted argument do not change
 // the structure: the next directive stays its own directive and the argument text is exactly as written.
 func VerifH10cQuotedLayout() {
